@@ -35,6 +35,9 @@ type c13Case struct {
 	// stream: the subscribers read slowly (a pipe of 64 bytes, 1 ms per read): the broker's writer is regularly
 	// blocked in its Write while further messages arrive
 	Slow bool `json:"slow,omitempty"`
+	// stream: every Big-th message of a publisher carries 5000 bytes (more than the writer's buffer holds) among the
+	// 5-byte ones
+	Big int `json:"big,omitempty"`
 }
 
 type c13Arr struct {
@@ -95,6 +98,9 @@ func (p *c13Prop) Gen(r *Rng, i int, tier string) interface{} {
 		c.QoS = []int{r.Intn(3), r.Intn(3), r.Intn(3)}
 	}
 	c.RM = []int{1, 2, 0}[r.Intn(3)]
+	if r.Chance(35) {
+		c.Big = 2 + r.Intn(6)
+	}
 	c.SubVer = 5
 	if c.RM == 0 && r.Bool() {
 		c.SubVer = 4
@@ -243,6 +249,9 @@ func (p *c13Prop) Run(ci interface{}) interface{} {
 				}
 				seq[t*3+q]++
 				payload := []byte{byte(pi), byte(t), byte(q), byte(seq[t*3+q] >> 8), byte(seq[t*3+q])}
+				if c.Big > 0 && k%c.Big == c.Big-1 {
+					payload = append(payload, make([]byte, 4995)...)
+				}
 				_ = a.SendL(mkPublish(mqttp.ProtocolV311, fmt.Sprintf("t/%d", t), payload, byte(q), false, uint16(k%60000+1)))
 			}
 			// keep the connection until the subscribers are done
@@ -256,7 +265,7 @@ func (p *c13Prop) Run(ci interface{}) interface{} {
 		a.mu.Lock()
 		for _, m := range a.Pubs {
 			pl := m.Payload()
-			if len(pl) == 5 {
+			if len(pl) == 5 || len(pl) == 5000 {
 				obs.Arr = append(obs.Arr, [5]int{si, int(pl[0]), int(pl[1]), int(pl[2]), int(pl[3])<<8 | int(pl[4])})
 			}
 		}
